@@ -1313,6 +1313,14 @@ impl SubRule {
         }
 
         if is_context_after {
+            // the segment the insertion was made in front of is done with as a whole: its later copies (when it is long) are not new sites
+            if res_word.in_bounds(pos) {
+                let mut seg_length = res_word.seg_length_at(pos);
+                while seg_length > 1 {
+                    pos.increment(&res_word);
+                    seg_length -= 1;
+                }
+            }
             pos.increment(&res_word);
         }
         
